@@ -538,7 +538,9 @@ func (d *deriver) callResult(c *ssa.Call, idx int) []Deriv {
 	}
 	switch full {
 	case "maps.Clone", "slices.Clone", "golang.org/x/exp/slices.Clone", "golang.org/x/exp/maps.Clone":
-		return d.derive(com.Args[0])
+		// shallow copy: a fresh top level whose elements are the argument's elements
+		el, ok := elemsOf(d.derive(com.Args[0]))
+		return []Deriv{{Fresh: true, Elems: el, ElemsOK: ok}}
 	}
 	if !d.p.InRepo(callee) || callee.Blocks == nil {
 		return unknownD("result of external %s", full)
